@@ -625,6 +625,154 @@ pub fn run_case(c: &Case, sched: &[u16], ctx: &mut Ctx) -> Verdict {
 }
 
 /// is there a stream to split before the call under test?
+
+// ------------------------------------------------------------------------------------------------
+// both ends h3: a request over the server's limit, the client's own limit decides whether a 431 can be sent
+
+#[derive(Clone, Default)]
+struct E2eObs {
+    server_resolve: Option<Result<(), ErrInfo>>,
+    server_driver: Option<ConnInfo>,
+    client_driver: Option<ConnInfo>,
+    client_send: Option<Result<(), ErrInfo>>,
+    client_response: Option<Result<u16, ErrInfo>>,
+}
+
+/// The client sends a request of size `size` before it can know the server's limit `ls`; the client's own limit is `lc`.
+/// Whatever the schedule: the refusal stays on that request - a 431, or a stream-level outcome when no 431 can be sent -
+/// and neither end reports a connection error or closes the connection.
+fn e2e_refusal_case(ls: u64, lc: u64, size: u64, style: Style, sched: &[u16], ctx: &mut Ctx) -> Verdict {
+    ctx.eval();
+    fastrand::seed(31);
+    let Some(fields) = fields_of_size(true, true, size) else { return Ok(()) };
+    let net = Net::new();
+    let o: Shared<E2eObs> = shared(E2eObs::default());
+    let mut ex = Exec::new();
+    let sp = ex.spawner.clone();
+    let (o1, n1) = (o.clone(), net.clone());
+    ex.spawn("server", async move {
+        let mut b = h3::server::builder();
+        b.send_grease(false).max_field_section_size(ls);
+        let mut conn: ServerConn = match b.build(n1.conn(Side::Server)).await {
+            Ok(c) => c,
+            Err(e) => {
+                o1.borrow_mut().server_driver = Some(conn_info(&e));
+                return;
+            }
+        };
+        loop {
+            match conn.accept().await {
+                Ok(Some(r)) => match r.resolve_request().await {
+                    Ok((_q, mut s)) => {
+                        o1.borrow_mut().server_resolve = Some(Ok(()));
+                        // (an application that cannot answer - the client's limit may be below the smallest response - gives
+                        // the request up instead of finishing its side with nothing on it: only h3's own paths are judged)
+                        match s.send_response(http::Response::builder().status(200).body(()).unwrap()).await {
+                            Ok(()) => {
+                                let _ = s.finish().await;
+                            }
+                            Err(_) => s.stop_stream(h3::error::Code::H3_INTERNAL_ERROR),
+                        }
+                    }
+                    Err(e) => o1.borrow_mut().server_resolve = Some(Err(err_info(&e))),
+                },
+                Ok(None) => break,
+                Err(e) => {
+                    o1.borrow_mut().server_driver = Some(conn_info(&e));
+                    break;
+                }
+            }
+        }
+        std::future::pending::<()>().await;
+        drop(conn);
+    });
+    let (o2, n2, sp2) = (o.clone(), net.clone(), sp.clone());
+    ex.spawn("client", async move {
+        let mut b = h3::client::builder();
+        b.send_grease(false).max_field_section_size(lc);
+        let Ok((conn, mut sr)): Result<(ClientConn, SendReq), _> = b.build(n2.conn(Side::Client)).await else { return };
+        let o3 = o2.clone();
+        sp2.spawn("client-driver", async move {
+            let mut conn = conn;
+            let e = std::future::poll_fn(|cx| conn.poll_close(cx)).await;
+            o3.borrow_mut().client_driver = Some(conn_info(&e));
+            std::future::pending::<()>().await;
+            drop(conn);
+        });
+        let mut req = http::Request::builder().method("GET").uri("https://a/").body(()).unwrap();
+        *req.headers_mut() = hm(&fields[4..]);
+        let mut s = match sr.send_request(req).await {
+            Ok(s) => s,
+            Err(e) => {
+                o2.borrow_mut().client_send = Some(Err(err_info(&e)));
+                std::future::pending::<()>().await;
+                return;
+            }
+        };
+        o2.borrow_mut().client_send = Some(Ok(()));
+        let _ = s.finish().await;
+        let r = s.recv_response().await.map(|r| r.status().as_u16()).map_err(|e| err_info(&e));
+        o2.borrow_mut().client_response = Some(r);
+        std::future::pending::<()>().await;
+        drop(sr);
+    });
+    let mut t = Tape::new(sched);
+    let end = ex.run(&net, &mut crate::simnet::exec::NoActor, &mut t, style, 200_000);
+    let obs = o.borrow().clone();
+    let closes = (net.close_calls(Side::Client), net.close_calls(Side::Server));
+    let case = || json!({"kind": "e2e_refusal", "server_limit": ls.to_string(), "client_limit": lc.to_string(), "size": size, "style": format!("{style:?}"), "cells": sched, "server_resolve": format!("{:?}", obs.server_resolve), "client_send": format!("{:?}", obs.client_send), "client_response": format!("{:?}", obs.client_response), "drivers": format!("{:?} {:?}", obs.client_driver, obs.server_driver), "closes": format!("{closes:?}")});
+    let fail = |m: String| Err(Failure::direct(m, case()));
+    if end == RunEnd::StepBound {
+        return Err(Failure::fault("step bound"));
+    }
+    if let Some((task, p)) = ex.panics().first() {
+        return fail(format!("panic in task {task}: {p}"));
+    }
+    if let Some(c) = closes.0.first().or(closes.1.first()) {
+        return fail(format!("a request of size {size} sent to a server with limit {ls} by a client with limit {lc}: the connection was closed with {:#x}", c.code));
+    }
+    if obs.client_driver.is_some() || obs.server_driver.is_some() {
+        return fail(format!("a driver reported an error: client {:?}, server {:?}", obs.client_driver, obs.server_driver));
+    }
+    for r in [obs.client_send.as_ref().and_then(|r| r.as_ref().err()), obs.client_response.as_ref().and_then(|r| r.as_ref().err()), obs.server_resolve.as_ref().and_then(|r| r.as_ref().err())].into_iter().flatten() {
+        if r.is_conn() {
+            return fail(format!("the refusal of one oversized request was reported as a connection error: {r:?}"));
+        }
+    }
+    match (&obs.client_send, &obs.server_resolve, &obs.client_response) {
+        (Some(Err(ErrInfo::HeaderTooBig { .. })), _, _) if size > ls => ctx.class("e2e_refused_by_the_sender"),
+        (Some(Ok(())), Some(Ok(())), Some(Ok(200))) if size <= ls => ctx.class("e2e_accepted"),
+        (Some(Ok(())), Some(Ok(())), Some(Err(_))) if size <= ls && lc < 42 => ctx.class("e2e_accepted_but_no_response_fits_the_client"),
+        (Some(Ok(())), Some(Err(ErrInfo::HeaderTooBig { .. })), Some(Ok(431))) if size > ls && lc >= 42 => ctx.class("e2e_431_received"),
+        (Some(Ok(())), Some(Err(ErrInfo::HeaderTooBig { .. })), Some(Err(_))) if size > ls => ctx.class("e2e_refused_without_an_answer"),
+        other => return fail(format!("unexpected outcome {other:?}")),
+    }
+    ctx.nontrivial(&("e2e_refusal", ls, lc, size, sched.to_vec()));
+    Ok(())
+}
+
+fn e2e_family(ctx: &mut Ctx, shard: usize, nshards: usize) -> Verdict {
+    let mut idx = 0usize;
+    for ls in [0u64, 12, 167, 168, 300] {
+        for lc in [0u64, 41, 42, 43, (1 << 62) - 1] {
+            for size in [167u64, 168, 209, 301, 4000] {
+                for (si, style) in [Style::Eager, Style::Tiny, Style::Random, Style::Random, Style::Random, Style::Random].into_iter().enumerate() {
+                    idx += 1;
+                    if idx % nshards != shard {
+                        continue;
+                    }
+                    let cells = crate::tape::prf_cells(idx as u64 + 10_000, 120);
+                    e2e_refusal_case(ls, lc, size, style, if si < 2 { &[] } else { &cells }, ctx)?;
+                }
+            }
+        }
+    }
+    if shard == 0 {
+        ctx.subspace("both ends h3: 5 server limits x 5 client limits x 5 request sizes x 6 schedules", idx as u64);
+    }
+    Ok(())
+}
+
 fn splittable(k: Kind) -> bool {
     !matches!(k, Kind::RecvReqHeaders | Kind::SendReqHeaders)
 }
@@ -632,6 +780,7 @@ fn splittable(k: Kind) -> bool {
 const LIMITS: [u64; 14] = [0, 1, 41, 42, 43, 100, 167, 204, 205, 300, 1000, 65535, 1 << 32, (1 << 62) - 1];
 
 fn exhaustive(ctx: &mut Ctx, shard: usize, nshards: usize) -> Verdict {
+    e2e_family(ctx, shard, nshards)?;
     let mut idx = 0usize;
     let mut n = 0u64;
     for kind in KINDS {
@@ -721,6 +870,16 @@ fn run_tape(tape: &[u16], ctx: &mut Ctx) -> Verdict {
 }
 
 fn run_direct(d: &Value, ctx: &mut Ctx) -> Verdict {
+    if d["kind"].as_str() == Some("e2e_refusal") {
+        let num = |k: &str| d[k].as_str().and_then(|s| s.parse::<u64>().ok()).unwrap_or(0);
+        let style = match d["style"].as_str() {
+            Some("Eager") => Style::Eager,
+            Some("Tiny") => Style::Tiny,
+            _ => Style::Random,
+        };
+        let cells: Vec<u16> = d["cells"].as_array().map(|a| a.iter().map(|x| x.as_u64().unwrap_or(0) as u16).collect()).unwrap_or_default();
+        return e2e_refusal_case(num("server_limit"), num("client_limit"), d["size"].as_u64().unwrap_or(0), style, &cells, ctx);
+    }
     let kind = KINDS.iter().copied().find(|k| Some(format!("{k:?}").as_str()) == d["kind"].as_str()).ok_or_else(|| Failure::fault("bad kind"))?;
     let num = |k: &str| d[k].as_str().and_then(|s| s.parse::<u64>().ok());
     let c = Case { kind, limit: num("limit"), size: d["size"].as_u64().unwrap_or(0), settings_first: d["settings_first"].as_bool().unwrap_or(true), peer_limit: num("peer_limit"), tiny: d["tiny"].as_bool().unwrap_or(false), split: d["split"].as_bool().unwrap_or(false), wire: d["wire"].as_u64().unwrap_or(0) as u8, open_wait: d["open_wait"].as_bool().unwrap_or(false) };
